@@ -97,6 +97,13 @@ func (b *builder) list(t J) string {
 			chars = false
 		}
 	}
+	codes := proper // a list of the codes of small letters: atom_codes/2 delivers it in its compact form
+	for _, e := range elems {
+		ea := e.([]J)
+		if n, ok := ea[1].(float64); ea[0] != "i" || !ok || n < 97 || n > 122 {
+			codes = false
+		}
+	}
 	lit := func(xs []string, tail string) string {
 		if len(xs) == 0 {
 			if tail == "" {
@@ -114,7 +121,7 @@ func (b *builder) list(t J) string {
 		return lit(es, tl)
 	}
 	for {
-		switch b.r.Intn(10) {
+		switch b.r.Intn(11) {
 		case 0, 1:
 			b.paths = append(b.paths, "literal")
 			return lit(es, tl)
@@ -162,6 +169,17 @@ func (b *builder) list(t J) string {
 				v := b.fresh()
 				b.goals = append(b.goals, fmt.Sprintf("atom_chars(%s, %s)", sb.String(), v))
 				b.paths = append(b.paths, "atom_chars")
+				return v
+			}
+		case 10:
+			if codes {
+				var sb strings.Builder
+				for _, e := range elems {
+					sb.WriteRune(rune(e.([]J)[1].(float64)))
+				}
+				v := b.fresh()
+				b.goals = append(b.goals, fmt.Sprintf("atom_codes(%s, %s)", sb.String(), v))
+				b.paths = append(b.paths, "atom_codes")
 				return v
 			}
 		case 7:
